@@ -24,9 +24,11 @@ DOCS = {
     "notJson": '[{"@id": "http://example.org/n1"',
     "ldReject": '{"@context": 5, "@id": "http://example.org/n1"}',
     "ldPanic": corpus.LD_PANIC_DOCS[0],
+    # not JSON, several read buffers long, the error is in its first bytes (a RAML source passed by mistake)
+    "notJsonLong": "#%RAML 1.0\ntitle: passed by mistake\n" + "".join("/resource%d:\n  get:\n    description: not JSON-LD at all\n" % i for i in range(60)),
 }
 DCLASS = {"pass": "ok", "fail1": "ok", "fail3": "ok", "failNested": "ok", "noNodes": "okNoNodes",
-          "notJson": "notJson", "ldReject": "ldReject", "ldPanic": "ldReject"}
+          "notJson": "notJson", "ldReject": "ldReject", "ldPanic": "ldReject", "notJsonLong": "notJson"}
 LEXICAL_PROFILE = None
 
 
@@ -57,7 +59,7 @@ def run_(tier):
     maxlen = 3 if tier == "quick" else 5
     kinds = sorted(DOCS)
     if tier == "quick":
-        kinds = ["fail1", "fail3", "ldPanic", "noNodes", "notJson", "pass"]
+        kinds = ["fail1", "fail3", "ldPanic", "noNodes", "notJsonLong", "pass"]
     cfg = ("INIT HInit\nNEXT HNext\nINVARIANT Emit\nCONSTANTS\n  DocKinds = {%s}\n  ProfKinds = {\"flat\", \"nested\"}\n  MaxLen = %d\n"
            % (", ".join('"%s"' % k for k in kinds), maxlen))
     gen = vlib.run_tlc("ACVHist", "ACVHist", cfg, workers=4, timeout=300)
@@ -82,7 +84,7 @@ def run_(tier):
         docs["own"] = d
         dcl = dict(DCLASS)
         dcl["own"] = "unknown"
-        steps = [rnd.choice(["own", "own", "pass", "notJson", "noNodes", "fail3"]) for _ in range(12)]
+        steps = [rnd.choice(["own", "own", "pass", "notJsonLong", "noNodes", "fail3"]) for _ in range(12)]
         cases.append({"profile": p, "pkey": name, "docs": docs, "dclasses": dcl, "fresh": sorted(set(steps)),
                       "steps": steps, "handles": [rnd.randrange(2) for _ in steps]})
     cases.extend(script_cases(rnd, 2 if tier == "quick" else 12))
